@@ -10,6 +10,12 @@ TB = ("Trusted base: the chain model of DESIGN.md section 3.1 (bank, staking wit
       "budget F, principals and amount lattice as reported in the evidence file; envelope of DESIGN.md section 4.")
 
 CLAIMED = {
+ "C01": ("5 (C01)", "Every sequence of <= D unbond/withdraw/time actions (D=5 quick, 7 thorough; plus bond/convert in thorough) with <= F slashing-of-unbonding, bonded-slash and rogue-transfer deviations is executed for 2-3 users and both tokens, plus a deeper one-token 'dust group' scenario (D=6/10) that puts zero-valued batches into a slashed release group. State oracle: liquid balance >= sum of released claims. Step oracles: a release is valued <= the coins that arrived (and >= arrived minus dust when clean), a withdraw pays exactly the recorded share in one send and removes exactly the paid claims. Probe in every distinct state: all users with matured claims withdraw on clones in every order (identical payouts, refusals only for sub-unit claims, second withdraw pays nothing).",
+         "explicit-state BFS of the real contracts with fault budget; state/step oracles plus exhaustive withdraw-order probes on clones of every state"),
+ "C07": ("5 (C07)", "Every sequence of <= D unbonds (cw20 Send and allowance-based SendFrom, both tokens mixed in a batch, 3 amounts), withdraws, forged Receive hooks and time jumps for 2-3 users plus a spender. A reference claim ledger carried inside the state key is compared in every distinct state with UnbondRequests of every known address, CurrentBatch totals, AllHistory totals (ledger + paid == history) and every AllHistory page; every accepted unbond burns exactly the tokens sent and credits only the cw20 sender within [amount - peg fee, amount].",
+         "explicit-state BFS of the real contracts with a reference-model ledger in the state key"),
+ "C08": ("5 (C08)", "For each (epoch, unbonding) configuration in {(10,30),(3,3),(0,1)} (+(1,2),(30,10) thorough) every sequence of <= D unbond/withdraw actions interleaved with the full time-region alphabet (every critical instant c-1, c, c+1) is executed; every transition compares the unbond history before and after (released entries frozen, nothing disappears, consecutive numbering, close only after > epoch, release and payout only at time + unbonding_period <= now, undelegated amount = requests at the recorded rates).",
+         "explicit-state BFS of the real contracts over period configurations with a time-region alphabet"),
  "C02": ("5 (C02)", "Every sequence of <= D hub transactions / environment events (D=4 quick, 6 thorough; F<=1/2 slashing or rogue-transfer deviations) from curated seed states is executed on the real contracts; on every transition the effects log is compared with the staking/bank ledgers: delegate messages sum to the payment and target registered validators, books fall by exactly the undelegated amount, stored books <= delegations after every pricing op, liquid balance untouched by non-withdraw ops. Exhaustive within the stated alphabet and depth, which is the right level for a history-quantified ledger invariant.",
          "explicit-state BFS of the real contracts on a chain model, effects-log step oracles"),
  "C03": ("5 (C03)", "In every distinct reachable state of the hub-core exploration the State query is recomputed from totals, token supplies and pending requests of that same state; every successful bond, bond-for-stSei, convert (both directions) and batch-closing unbond is compared with the exact floor arithmetic of the property (256-bit integers), including a 1e15-scaled instance with peg fee.",
